@@ -19,6 +19,46 @@ CHECKS = {
         design_ref="5 (C02), 3 (E1)",
         note=E1_NOTE,
     ),
+    "C01": dict(
+        engine="E2 crash",
+        category="fault_enumeration",
+        technique="exhaustive crash-point enumeration: a commit hook on the real sqlite3 connection yields the database image after every durable commit of a run; each image is restarted (fresh worker, lock expiry, recovery sweep, drain) on the real engine",
+        text="Every durable commit of the run of every listed workload is a crash point (single crash in quick; every pair of successive crashes incl. a crash inside recovery/drain, and three baseline schedules, in thorough) x 2 ledger cuts (task body ran / did not run) x 2 restart orders. Oracle: outcome in the admissible set, every execution saw the uninterrupted run's path-ordered context, only the in-flight step may run again, nothing stranded.",
+        design_ref="5 (C01), 3 (E2)",
+        note="Trusted: SQLite atomic commit (crash states are exactly the commit images), CPython, harness seams of DESIGN.md 2.2. Post-crash drain is FIFO; other drain orders are C02/C10's business.",
+    ),
+    "C03": dict(
+        engine="E1 sched",
+        category="model_checking",
+        technique="explicit-state model checking of the real handlers over every DAG shape up to 4 stages: all delivery orders x injected early/duplicate StartStage, join oracle evaluated on durable audit rows",
+        text="For every DAG on <=4 stages up to isomorphism (all succeed / each single stage halting) and every join type workload: all delivery orders with 1 (quick) / 2 (thorough) spurious StartStage messages for any stage at any point (+1 lost ack in thorough). At every durable NOT_STARTED->RUNNING of a stage the published join semantics is evaluated on the pre-state's upstream rows.",
+        design_ref="5 (C03)",
+        note=E1_NOTE,
+    ),
+    "C05": dict(
+        engine="E1 sched",
+        category="model_checking",
+        technique="explicit-state model checking of the real handlers; invariant evaluated in every quiescent state (empty queue) reached under every delivery order x bounded faults",
+        text="Every quiescent state reachable under all delivery orders (+1 lost ack on the small workloads, + an injected cancel) of the workload family incl. failing branches next to running ones, early-firing joins, synthetic before/after stages, jump loops: workflow final or explicitly waiting, outcome function consistent, nothing running under a finished workflow, DLQ empty.",
+        design_ref="5 (C05)",
+        note=E1_NOTE,
+    ),
+    "C06": dict(
+        engine="E1 sched (+E2/E3 audit rows)",
+        category="model_checking",
+        technique="explicit-state model checking of the real handlers with SQL triggers recording every durable status change; each recorded change checked against a pinned copy of the published transition table",
+        text="Every durable status change (trigger audit rows, rolled back with their transaction) of every transition of an exhaustive exploration (all orders x lost ack / cancel / recovery sweep / signal) is in the published table; a completed status is left only while handling JumpToStage/RestartStage. The pinned table is diffed against models/status.py so editing the table is itself reported.",
+        design_ref="5 (C06)",
+        note=E1_NOTE,
+    ),
+    "C17": dict(
+        engine="E1 sched",
+        category="model_checking",
+        technique="explicit-state model checking of the real handlers: a cancel request injected in every reachable state of every delivery order (the cancel message itself may be overtaken)",
+        text="Cancel injected in every reachable state x all delivery orders of the remaining messages (+1 lost ack / early delivery in thorough). Oracle: no task body executes in any transition after the one that committed is_canceled; at quiescence the workflow is final, unfinished stages are CANCELED ('in effect finished' = every task ran to a recorded result, only Complete* bookkeeping pending, may keep the natural status).",
+        design_ref="5 (C17)",
+        note=E1_NOTE,
+    ),
 }
 
 NOT_YET = {
@@ -58,6 +98,8 @@ def main():
         "engines": [
             {"name": "E1 sched", "path": "vlib/e1.py", "serves_properties": sorted(p for p, c in CHECKS.items() if c["engine"].startswith("E1")),
              "kind_free_text": "explicit-state search over the real handlers; state = SQLite image, transition = one real engine call"},
+            {"name": "E2 crash", "path": "vlib/e2.py", "serves_properties": sorted(p for p, c in CHECKS.items() if "E2" in c["engine"]),
+             "kind_free_text": "crash-point enumerator: image after every durable commit (commit hook on the real connection) x restart orders"},
         ],
         "checks": checks,
         "not_applicable": na,
